@@ -4,5 +4,6 @@ CONSTANTS WC = 2
  WL = 5
  FIXED = TRUE
  NarrowWrap = FALSE
+ Low32 = FALSE
 INVARIANTS Accepts SameMatch
 CHECK_DEADLOCK FALSE
